@@ -193,6 +193,8 @@ def run_O9(chk):
                     "dmrg_: the default eigensolver options do not ask for the smallest real part")
 
 MUTANTS = [
+    ('Heff1 early return without the factor', 'yastn/tn/mps/_env.py', '        tmp = tensordot(self.F[n - 1, n], tmp, axes=((0, 1, 2), (2, 0, 3)))\n\n        if precompute:\n            tmp = tmp.fuse_legs(axes=(0, (1, 2)))\n        return tmp * self.op.factor', '        tmp = tensordot(self.F[n - 1, n], tmp, axes=((0, 1, 2), (2, 0, 3)))\n\n        if precompute:\n            return tmp.fuse_legs(axes=(0, (1, 2)))\n        return tmp * self.op.factor', 'O8'),
+    ('eigs default LM', 'yastn/krylov/_krylov.py', "def eigs(f, v0, k=1, which='SR',", "def eigs(f, v0, k=1, which='LM',", 'O9'),
     ("tolerances exchanged in the driver call", "yastn/tn/mps/_dmrg.py", "                energy_tol, Schmidt_tol, max_sweeps,\n                opts_eigs, opts_svd, precompute, **kwargs)\n", "                Schmidt_tol, energy_tol, max_sweeps,\n                opts_eigs, opts_svd, precompute, **kwargs)\n", "U4"),
     ("penalty conjugates the input", "yastn/tn/mps/_env.py", "        return  tmp * (self.penalty * vdot(tmp, A))", "        return  tmp * (self.penalty * vdot(A, tmp))", "O5"),
     ("bra not conjugated", "yastn/tn/mps/_env.py", "        tmp = vecL @ self.bra.A[n].conj()\n        tmp = tensordot(self.op.A[n], tmp, axes=((0, 1), (1, 3)))", "        tmp = vecL @ self.bra.A[n]\n        tmp = tensordot(self.op.A[n], tmp, axes=((0, 1), (1, 3)))", "O5"),
